@@ -178,6 +178,26 @@ def check_property(prop, tier, seed):
                 violations.append(v)
         undecided += r["undecided"]
 
+    # thorough tier: the general forms of the assumed exp/log, finite-sum and counting facts are re-checked
+    # against Mathlib (lean/Facts.lean); the instantiation of these schemas in Python stays trusted
+    if tier == "thorough" and spec.get("lean"):
+        import subprocess
+
+        lf = os.path.join(ROOT, "lean", "Facts.lean")
+        n_ex = sum(1 for ln in open(lf) if ln.startswith("example"))
+        try:
+            pr = subprocess.run(["lean", lf], capture_output=True, text=True, timeout=1500)
+            ok = pr.returncode == 0 and "error" not in (pr.stdout + pr.stderr)
+        except (OSError, subprocess.TimeoutExpired) as e:  # noqa: PERF203
+            ok, pr = False, None
+        if ok:
+            obligations += n_ex
+            discharged += n_ex
+            by_backend["lean-4.33/Mathlib"] = n_ex
+            by_scope["forall"] = by_scope.get("forall", 0) + n_ex
+        else:
+            errors.append({"where": "lean/Facts.lean", "trace": (pr.stdout + pr.stderr)[:2000] if pr else "lean did not run"})
+
     printed = set()
     for f, v in known_hits:
         key = f["id"]
